@@ -129,6 +129,34 @@ Theorem c20_untitle_total : forall U s, exists r, un_title U s = Ok r.
 Proof. exact un_title_total. Qed.
 Print Assumptions c20_untitle_total.
 
+(* config.NewConfig hands the template to FileNamingFormat VERBATIM: for a non-empty template the
+   configured path is FileNamingFormat on that very template, or a rejection exactly when the template
+   is blank (white space only); only the empty template stands for the default *)
+Theorem c20_config_transparent : forall U t content, t <> [] ->
+  (is_empty_or_space U t = true -> configured_format U t content = Err err_config) /\
+  (is_empty_or_space U t = false -> configured_format U t content = file_naming_format U t content).
+Proof. exact config_transparent. Qed.
+Print Assumptions c20_config_transparent.
+
+Theorem c20_config_verbatim : forall U t f, new_config U t = Ok f -> f = effective_template t.
+Proof. exact new_config_verbatim. Qed.
+Print Assumptions c20_config_verbatim.
+
+Theorem c20_config_default : forall U content,
+  new_config U [] = Ok default_format /\
+  configured_format U [] content = file_naming_format U default_format content.
+Proof. intros. split; reflexivity. Qed.
+Print Assumptions c20_config_default.
+
+(* the configured path renders the Spec of the verbatim template or rejects; it never panics *)
+Theorem c20_config_spec : forall U t content,
+  (configured_format U t content = Err err_config \/
+   configured_format U t content =
+     match spec_configured U t content with Some r => Ok r | None => Err (reject_code (effective_template t)) end) /\
+  configured_format U t content <> Panic.
+Proof. intros. split; [apply configured_spec|apply configured_total]. Qed.
+Print Assumptions c20_config_spec.
+
 (* ---------------- non-vacuity and documented examples (ASCII: the oracle is never consulted) ---------------- *)
 Definition U0 : unicode := mkU (fun r => r) (fun r => r) (fun r => r) (fun _ => false) (fun _ => false)
                                (fun _ => false) (fun _ => false) (fun s => s).
@@ -164,6 +192,13 @@ Example c20_d8_witnesses :
   = Ok [201;144;201;144;201;144;201;144;97;98] /\
   file_naming_format U0 [255;103;111;100;101;115;105;103;110;101;114] [97;95;98] = Ok [255;97;98].
 Proof. vm_compute. split; reflexivity. Qed.
+
+(* " go_designer\t" keeps its outer white space; "  " is rejected; "" is the default *)
+Example c20_config_examples :
+  configured_format U0 [32;103;111;95;100;101;115;105;103;110;101;114;9] [97;66] = Ok [32;97;95;98;9] /\
+  configured_format U0 [32;32] [97;66] = Err err_config /\
+  configured_format U0 [] [97;66] = Ok [97;98].
+Proof. vm_compute. repeat split; reflexivity. Qed.
 
 (* user_name -> UserName -> user_name *)
 Example c20_roundtrip_example :
